@@ -205,8 +205,12 @@ class Subset(Obligation):
 
         def eq(a_, b_):
             a_, b_ = one(a_), one(b_)
+            # replay inputs are dyadic rationals: origin + k * cell is exact
+            # in float64, so the comparison can be (nearly) exact; a loose
+            # relative tolerance would hide an error of one cell next to a
+            # large origin
             return common.eq_expr(a_, b_) if symbolic else \
-                common.close_expr(a_, b_, 1e-6)
+                common.close_expr(a_, b_, 1e-12)
         if src is not None and getattr(self, 'check_source', False):
             # the source file keeps its own referencing (a clause of C05;
             # these obligations are listed by checks/c05.py)
